@@ -17,7 +17,6 @@ import (
 	"encoding/binary"
 	"encoding/hex"
 	"fmt"
-	"net"
 	"os"
 	"strconv"
 	"strings"
@@ -152,6 +151,17 @@ type script struct {
 	eof    bool // after the script: connection closed (true) or silent (false)
 }
 
+// macShapes: fault kind -> number of MAC octets kept, given the length of the full MAC
+var macShapes = map[string]func(int) int{
+	"macempty":  func(n int) int { return 0 },
+	"mac1":      func(n int) int { return 1 },
+	"mac9":      func(n int) int { return 9 },
+	"mac10":     func(n int) int { return 10 },
+	"machalf":   func(n int) int { return n / 2 },
+	"macminus1": func(n int) int { return n - 1 },
+	"macext":    func(n int) int { return n + 1 },
+}
+
 func has(fs []fault, kind string, pos int) bool {
 	for _, f := range fs {
 		if f.Kind == kind && f.Pos == pos {
@@ -239,6 +249,35 @@ func build(s *script, queryOctets []byte) []envelope {
 		if has(s.faults, "alter", i) {
 			out[3] ^= 0x80 // the RA flag: the message still parses, its content is no longer what was signed
 			e.Sig[3] = 0
+		}
+		for kind, keep := range macShapes {
+			if !has(s.faults, kind, i) {
+				continue
+			}
+			m2 := new(dns.Msg)
+			if err := m2.Unpack(out); err != nil || m2.IsTsig() == nil {
+				hx.Die("cannot reshape the MAC of envelope %d: %v", i, err)
+			}
+			t := m2.IsTsig()
+			cut := len(out) - dns.Len(t)
+			mac, _ := hex.DecodeString(t.MAC)
+			full := len(mac)
+			n := keep(full)
+			for len(mac) < n {
+				mac = append(mac, 0x5a)
+			}
+			t.MAC, t.MACSize = hex.EncodeToString(mac[:n]), uint16(n)
+			buf := make([]byte, dns.Len(t)+16)
+			off, err := dns.PackRR(t, buf, 0, nil, false)
+			if err != nil {
+				hx.Die("repacking the TSIG of envelope %d: %v", i, err)
+			}
+			out = append(append([]byte(nil), out[:cut]...), buf[:off]...)
+			if n >= 10 && 2*n >= full && n < full && e.Sig[3] == 1 { // RFC 8945 5.2.2.1: an admissible truncation (AMBIG)
+				e.Sig[3] = 2
+			} else {
+				e.Sig[3] = 0
+			}
 		}
 		if has(s.faults, "unsign", i) {
 			m2 := new(dns.Msg)
@@ -353,6 +392,7 @@ type vec struct {
 	Tail      bool    `json:"tail"`
 	Delivered [][]rec `json:"delivered"`
 	Err       bool    `json:"err"`
+	Ambig     bool    `json:"ambig"`
 	Used      int     `json:"used"`
 }
 
@@ -429,6 +469,9 @@ func one(v *vec, s *script, sum *hx.Summary) {
 	}
 	if obs.Extra > 0 {
 		sum.Mis(pre+"envelope-after-error", what+got, v)
+		return
+	}
+	if v.Ambig { // a validly truncated MAC: RFC 8945 leaves acceptance to policy; only the closure is asserted
 		return
 	}
 	if sameRecs2(obs.Delivered, v.Delivered) && obs.Err == v.Err {
@@ -574,7 +617,7 @@ func recordIn(out string, n int) {
 		k := len(s.chunks)
 		kinds := []string{"nosoa", "rcode", "id", "close", "cut"}
 		if s.tsig {
-			kinds = append(kinds, "alter", "unsign", "wrongkey", "drop", "dup", "swap")
+			kinds = append(kinds, "alter", "unsign", "wrongkey", "drop", "dup", "swap", "macempty", "mac1", "mac9", "mac10", "machalf", "macminus1", "macext")
 		}
 		for nf := []int{0, 0, 1, 1, 1, 2}[rnd.Intn(6)]; nf > 0; nf-- {
 			f := fault{Kind: kinds[rnd.Intn(len(kinds))], Pos: 1 + rnd.Intn(k)}
@@ -589,7 +632,9 @@ func recordIn(out string, n int) {
 			}
 			clash := false
 			for _, g := range s.faults { // one fault that reshapes the sequence at most: positions stay meaningful
-				clash = clash || (seq(g.Kind) && seq(f.Kind)) || (g.Kind == f.Kind && g.Pos == f.Pos)
+				_, gm := macShapes[g.Kind]
+				_, fm := macShapes[f.Kind]
+				clash = clash || (seq(g.Kind) && seq(f.Kind)) || (g.Kind == f.Kind && g.Pos == f.Pos) || (gm && fm)
 			}
 			if !clash {
 				s.faults = append(s.faults, f)
@@ -643,6 +688,11 @@ type outEvent struct {
 func limbs48(t uint64) []int { return []int{int(t >> 32 & 0xffff), int(t >> 16 & 0xffff), int(t & 0xffff)} }
 
 // recordOut drives the sending side: a real dns.Server on an in-memory listener, handler = Transfer.Out.
+// Every connection carries one to three requests back to back (RFC 5936 4.1) -- the server keeps one
+// response object per TCP connection, so the second answer shows whether the per-request TSIG state
+// (request MAC, timers-only switch) starts afresh.  Each answer is validated from scratch: its first
+// envelope must be signed over the MAC of ITS request with the full variables, the following ones over
+// the previous envelope with the timers only.
 // The secrets are those of harness/cmd/tsig (`tsig judge' computes the HMACs): index 1.
 func recordOut(out string, n int) {
 	rnd := hx.Rand()
@@ -677,8 +727,7 @@ func recordOut(out string, n int) {
 			ch <- e
 		}
 		close(ch)
-		<-done
-		rw.Close()
+		<-done // the connection is left to the server loop: the next request may follow
 	})
 	ln := pipe.NewListener()
 	srv := &dns.Server{Listener: ln, Handler: handler, TsigSecret: map[string]string{keyName: secret}}
@@ -688,105 +737,107 @@ func recordOut(out string, n int) {
 	<-started
 	defer srv.Shutdown()
 
-	idx := 0
+	idx, serialNo := 0, 0
 	for c := 0; c < n; c++ {
-		// a valid transfer, randomly cut
-		serial := uint32(rnd.Intn(1 << 31))
-		var R []rec
-		R = append(R, rec{1, int(serial >> 16), int(serial & 0xffff)})
-		for k, id := rnd.Intn(12), 1; k > 0; k, id = k-1, id+1 {
-			R = append(R, rec{0, id})
-		}
-		R = append(R, R[0])
-		var lens []int
-		for rest := len(R); rest > 0; {
-			l := 1 + rnd.Intn(min(rest, 5))
-			lens = append(lens, l)
-			rest -= l
-		}
-		chunks := chunksOf(R, lens)
-		mu.Lock()
-		feed = chunks
-		mu.Unlock()
-		// the signing of the query: honest, wrong secret, or none
-		variant := []string{"signed", "signed", "signed", "badsecret", "unsigned"}[rnd.Intn(5)]
-		q := new(dns.Msg)
-		q.SetAxfr(zone)
-		q.Id = uint16(rnd.Intn(1 << 16))
-		var qo []byte
-		var err error
-		now := uint64(time.Now().Unix())
-		switch variant {
-		case "unsigned":
-			qo, err = q.Pack()
-		default:
-			q.SetTsig(keyName, keyAlg, 300, int64(now))
-			sec := secret
-			if variant == "badsecret" {
-				sec = secretBad
-			}
-			qo, _, err = dns.TsigGenerate(q, sec, "", false)
-		}
-		if err != nil {
-			hx.Die("query: %v", err)
-		}
 		conn, err := ln.Dial()
 		if err != nil {
 			hx.Die("dial: %v", err)
 		}
-		conn.SetDeadline(time.Now().Add(30 * time.Second))
-		if _, err := conn.Write(pipe.Frame(qo)); err != nil {
-			hx.Die("write query: %v", err)
-		}
-		var msgs [][]byte
-		for {
-			p, err := pipe.ReadFrame(conn)
-			if err != nil {
-				if ne, ok := err.(net.Error); ok && ne.Timeout() {
-					hx.Die("the server did not finish the transfer on an in-memory connection")
+		nreq := 1 + rnd.Intn(3)
+		for rq := 0; rq < nreq; rq++ {
+			// a valid transfer, randomly cut
+			serial := uint32(rnd.Intn(1 << 31))
+			var R []rec
+			R = append(R, rec{1, int(serial >> 16), int(serial & 0xffff)})
+			for k, id := rnd.Intn(12), 1; k > 0; k, id = k-1, id+1 {
+				R = append(R, rec{0, id})
+			}
+			R = append(R, R[0])
+			var lens []int
+			for rest := len(R); rest > 0; {
+				l := 1 + rnd.Intn(min(rest, 5))
+				lens = append(lens, l)
+				rest -= l
+			}
+			chunks := chunksOf(R, lens)
+			mu.Lock()
+			feed = chunks
+			mu.Unlock()
+			// the signing of the request: honest (mostly), wrong secret, or none
+			variant := []string{"signed", "signed", "signed", "signed", "badsecret", "unsigned"}[rnd.Intn(6)]
+			q := new(dns.Msg)
+			q.SetAxfr(zone)
+			q.Id = uint16(rnd.Intn(1 << 16))
+			var qo []byte
+			now := uint64(time.Now().Unix())
+			switch variant {
+			case "unsigned":
+				qo, err = q.Pack()
+			default:
+				q.SetTsig(keyName, keyAlg, 300, int64(now))
+				sec := secret
+				if variant == "badsecret" {
+					sec = secretBad
 				}
-				break
+				qo, _, err = dns.TsigGenerate(q, sec, "", false)
 			}
-			msgs = append(msgs, p)
-		}
-		conn.Close()
-		sum.Evaluations++
-		mu.Lock()
-		st := status
-		mu.Unlock()
-		// (1) what the server said about the request's TSIG: judged like any verification
-		idx++
-		w.Emit(tsigEv{Ev: "verify", I: idx, What: "server:" + variant, Octets: hx.FromBytes(qo), Reqmac: hx.B{}, Now: limbs48(now),
-			Via: "server", Secrets: tab, Got: errTextOf(st.err), Signed: st.signed})
-		// (2) the envelopes on the wire: a session chained on the query's MAC
-		ev := outEvent{Ev: "out", I: c + 1, Mode: "axfr", Q: []int{0, 0}, Chunks: chunks, Wire: [][]rec{}, IDs: true}
-		w.Emit(tsigEv{Ev: "q", I: 0, What: variant, Octets: hx.FromBytes(qo), Reqmac: hx.B{}, Now: limbs48(now), Secrets: tab})
-		prevMAC := ""
-		if qm := new(dns.Msg); qm.Unpack(qo) == nil && qm.IsTsig() != nil {
-			prevMAC = qm.IsTsig().MAC
-		}
-		for _, p := range msgs {
-			m := new(dns.Msg)
-			if err := m.Unpack(p); err != nil {
-				sum.Mis("xfr/out:unparsable-envelope", fmt.Sprintf("an envelope written by Transfer.Out does not unpack: %v", err), hx.FromBytes(p))
-				continue
+			if err != nil {
+				hx.Die("query: %v", err)
 			}
-			ev.Wire = append(ev.Wire, fromRRs(m.Answer))
-			ev.IDs = ev.IDs && m.Id == q.Id && m.Response && m.Authoritative && m.Rcode == dns.RcodeSuccess
-			if m.IsTsig() != nil {
-				ev.Signed++
+			conn.SetDeadline(time.Now().Add(20 * time.Second))
+			if _, err := conn.Write(pipe.Frame(qo)); err != nil {
+				hx.Die("write query: %v", err)
 			}
-			if variant == "signed" { // the server answers a verified request with a signed chain
+			var msgs [][]byte
+			for len(msgs) < len(chunks) { // the sender writes one message per chunk; fewer shows as a deadline error
+				p, err := pipe.ReadFrame(conn)
+				if err != nil {
+					break
+				}
+				msgs = append(msgs, p)
+			}
+			sum.Evaluations++
+			serialNo++
+			mu.Lock()
+			st := status
+			mu.Unlock()
+			what := fmt.Sprintf("%s, request %d of %d on its connection", variant, rq+1, nreq)
+			// (1) what the server said about the request's TSIG: judged like any verification
+			idx++
+			w.Emit(tsigEv{Ev: "verify", I: idx, What: "server:" + what, Octets: hx.FromBytes(qo), Reqmac: hx.B{}, Now: limbs48(now),
+				Via: "server", Secrets: tab, Got: errTextOf(st.err), Signed: st.signed})
+			// (2) the envelopes on the wire: a session chained on the MAC of this request
+			ev := outEvent{Ev: "out", I: serialNo, Mode: "axfr", Q: []int{0, 0}, Chunks: chunks, Wire: [][]rec{}, IDs: true, Variant: variant}
+			w.Emit(tsigEv{Ev: "q", I: 0, What: what, Octets: hx.FromBytes(qo), Reqmac: hx.B{}, Now: limbs48(now), Secrets: tab})
+			prevMAC := ""
+			if qm := new(dns.Msg); qm.Unpack(qo) == nil && qm.IsTsig() != nil {
+				prevMAC = qm.IsTsig().MAC
+			}
+			for _, p := range msgs {
+				m := new(dns.Msg)
+				if err := m.Unpack(p); err != nil {
+					sum.Mis("xfr/out:unparsable-envelope", fmt.Sprintf("an envelope written by Transfer.Out does not unpack: %v", err), hx.FromBytes(p))
+					continue
+				}
+				ev.Wire = append(ev.Wire, fromRRs(m.Answer))
+				ev.IDs = ev.IDs && m.Id == q.Id && m.Response && m.Authoritative && m.Rcode == dns.RcodeSuccess
+				if m.IsTsig() != nil {
+					ev.Signed++
+				}
+				if variant != "signed" {
+					continue
+				}
+				// the server answers a verified request with a signed chain
 				idx++
 				tnow := uint64(time.Now().Unix())
-				w.Emit(tsigEv{Ev: "env", I: idx, What: "out", Octets: hx.FromBytes(p), Reqmac: hx.B{}, Now: limbs48(tnow),
+				w.Emit(tsigEv{Ev: "env", I: idx, What: "out: " + what, Octets: hx.FromBytes(p), Reqmac: hx.B{}, Now: limbs48(tnow),
 					Via: "server-out", Secrets: tab, Got: ""})
 				// ... and single-bit alterations of the envelope, verified the way Transfer.ReadMsg does it: against the MAC
 				// of the previous message, timers only from the second envelope on (every bit of the first two
 				// envelopes of the first transfers, a sample elsewhere)
 				first := len(ev.Wire) == 1
 				for b := 0; b < 8*len(p); b++ {
-					if (c >= 2 || len(ev.Wire) > 2) && rnd.Intn(8*len(p)) >= 64 {
+					if (serialNo > 2 || len(ev.Wire) > 2) && rnd.Intn(8*len(p)) >= 64 {
 						continue
 					}
 					o := append([]byte(nil), p...)
@@ -801,9 +852,12 @@ func recordOut(out string, n int) {
 					prevMAC = t.MAC
 				}
 			}
+			wx.Emit(ev)
+			if len(msgs) != len(chunks) {
+				break // the connection is out of step: abandon it (Trace_Xfr reports the short answer)
+			}
 		}
-		ev.Variant = variant
-		wx.Emit(ev)
+		conn.Close()
 	}
 	sum.Nontrivial = idx
 	sum.Print()
